@@ -79,13 +79,13 @@ func opTables(u *Universe) (map[string]*opInfo, bool) {
 				if !ok || len(call.Args) != 3 {
 					continue
 				}
-				if f := calleeOf(info, call); f == nil || f.Name() != "newBaseOperation" {
+				if f := calleeOf(info, call); f == nil || oldObjName(f) != "newBaseOperation" {
 					continue
 				}
 				body := ""
 				bexpr := ast.Unparen(call.Args[2])
 				if inner, ok := bexpr.(*ast.CallExpr); ok { // unmarshalBody(op.Body, &T{})
-					if f := calleeOf(info, inner); f != nil && f.Name() == "unmarshalBody" && len(inner.Args) == 2 {
+					if f := calleeOf(info, inner); f != nil && oldObjName(f) == "unmarshalBody" && len(inner.Args) == 2 {
 						bexpr = inner.Args[1]
 					}
 				}
@@ -469,7 +469,7 @@ func ruleR14_5(w *World, r *Report) {
 			ast.Inspect(s, func(node ast.Node) bool {
 				if sel, ok := node.(*ast.SelectorExpr); ok {
 					if call, ok := sel.X.(*ast.CallExpr); ok {
-						if f := calleeOf(p.TypesInfo, call); f != nil && f.Name() == "GetBody" {
+						if f := calleeOf(p.TypesInfo, call); f != nil && oldObjName(f) == "GetBody" {
 							read[sel.Sel.Name] = true
 						}
 					}
